@@ -178,19 +178,21 @@ def _init_child(c):
         out["error"] = ("None", "setup_config returned None")
         return out
     out["accepted"] = True
+    out["ens_engs"] = [list(e) for e in cfg["simulation"].get("ensemble_engines", [])]
     if not c.get("_paths"):
         return out
     try:
         md_items, state = setup_internal(cfg)
         n_real = state.n - 1
         diag = [state.state[i, i] != 0 for i in range(n_real)]
-        picks = []
+        picks, pick_engs = [], []
         import copy as _copy
 
         while state.initiate():
             w = state.prep_md_items(_copy.deepcopy(md_items))
             picks.append(list(w["ens_nums"]))
-        out["init"] = {"diag": diag, "picks": picks, "workers": state.workers}
+            pick_engs.append({int(e): sorted(w["picked"][e]["eng_idx"]) for e in w["ens_nums"]})
+        out["init"] = {"diag": diag, "picks": picks, "workers": state.workers, "pick_engs": pick_engs}
     except Exception as exc:  # noqa: BLE001
         import traceback
 
@@ -260,6 +262,10 @@ def body(rec, c):
                 rec.check(False, f"config:valid-configuration-raises:{res['error'][0]}", f"{res['error'][1]} {info}")
             rec.cls("cfg:valid-by-the-statement-but-rejected(allowed)")
             return
+        if c["ens_engs"] is not None:
+            # an explicit engine layout is what the ensembles are initialised with
+            rec.cls("cfg:explicit-engine-layout")
+            rec.check(res.get("ens_engs") == c["ens_engs"], "config:explicit-engine-layout-changed-by-normalisation", f"configured {c['ens_engs']}, after setup_config {res.get('ens_engs')} {info}")
         if not paths:
             rec.cls("cfg:accepted-no-start-paths-constructed")
             return
@@ -269,6 +275,10 @@ def body(rec, c):
             return
         rec.check(all(init["diag"]), "config:loaded-path-has-zero-weight-in-its-ensemble", f"{init['diag']} {info}")
         rec.check(len(init["picks"]) == c["workers"], "config:first-picks", f"{init['picks']} workers {c['workers']}")
+        if c["ens_engs"] is not None:
+            for pe in init["pick_engs"]:
+                for e, engs in pe.items():
+                    rec.check(engs == sorted(set(c["ens_engs"][e + 1])), "config:first-pick-uses-engines-not-configured-for-its-ensemble", f"ensemble {e}: {engs} vs configured {c['ens_engs'][e + 1]} {info}")
         rec.cls("cfg:initialised")
         if c["quantis"] or c["lm1"] not in ("absent", False):
             return  # the lattice plug-in carries no energies for QuanTIS; lambda_-1 runs are exercised in C09/C11
